@@ -8,7 +8,7 @@
    specification helpers of RunC05/C06/C08/C09/C18) plus: every register of the result is
    canonical and denotes the integer the interpreter computed. *)
 From RV.Model Require Import Base Word Opaque History.
-From RV.Run Require RunC05 RunC06 RunC08 RunC09 RunC18.
+From RV.Run Require RunC03 RunC05 RunC06 RunC08 RunC09 RunC13 RunC18.
 
 Inductive call : Type :=
 | history (bits : Z) (regs : list (list Z)) (prog : list Z).
@@ -163,13 +163,32 @@ Definition zsem (o : opcode) (bits : Z) (x y z : Z) (imm : list Z) : zres :=
   | WrMul => z_wrapping_mul bits x y
   | WrDiv => z_wrapping_div x y
   | WrRem => z_wrapping_rem x y
-  | WrPow => z_wrapping_pow bits x y
+  | WrPow => zw (RunC13.powmod bits x y)
   | Gcd => z_gcd x y
   | AddMod => z_add_mod x y z
   | MulMod => z_mul_mod x y z
   | PowMod => z_pow_mod bits x y z
   | Root => z_root bits x s
   | MulRedc => z_mul_redc bits x y z s
+  | InvRing => zwo (if (0 <? bits) && Z.odd x then Some (zmodinv x m) else None)
+  | ChMul => zwo (if x * y <? m then Some (x * y) else None)
+  | SatMul => zw (if x * y <? m then x * y else m - 1)
+  | OvMul => zwf (modp2 (x * y) bits) (m <=? x * y)
+  | DivCeil => if y =? 0 then Panic else zw (RunC03.ceil_div x y)
+  | ChDiv => zwo (if y =? 0 then None else Some (x / y))
+  | ChRem => zwo (if y =? 0 then None else Some (x mod y))
+  | NextMul => if (y =? 0) || (m <=? RunC03.next_mult x y) then Panic else zw (RunC03.next_mult x y)
+  | ChNextMul => zwo (if (y =? 0) || (m <=? RunC03.next_mult x y) then None
+                      else Some (RunC03.next_mult x y))
+  | InvMod => zwo (if (2 <=? y) && (Z.gcd x y =? 1) then Some (zmodinv x y) else None)
+  | Lcm => zwo (if (x =? 0) || (y =? 0) then Some 0
+                else let l := x * y / Z.gcd x y in if l <? m then Some l else None)
+  | GcdExt => zw (Z.gcd x y)
+  | ReduceMod => zw (if y =? 0 then 0 else x mod y)
+  | SquareRedc => z_mul_redc bits x x z s
+  | ChPow => zwo (if RunC13.overflows bits x y then None else Some (RunC13.powmod bits x y))
+  | SatPow => zw (if RunC13.overflows bits x y then m - 1 else RunC13.powmod bits x y)
+  | OvPow => zwf (RunC13.powmod bits x y) (RunC13.overflows bits x y)
   end.
 
 Definition zstate := (list Z * list Z)%type.       (* register values, status log *)
